@@ -34,8 +34,13 @@ const c18ConcQuota = "quotas:\n  - id: cc\n    filter:\n      url: b.io/c\n    s
 func c18Files() map[string]string {
 	m, _ := os.ReadFile("/repo/proxy/metrics.yaml")
 	return map[string]string{
-		"flows/f1.yaml":       probeFlow("f1", "a.com/p1", 411),
-		"flows/f2.yaml":       probeFlow("f2", "a.com/p2", 412),
+		"flows/f1.yaml": probeFlow("f1", "a.com/p1", 411),
+		"flows/f2.yaml": probeFlow("f2", "a.com/p2", 412),
+		// three inert flows on an enclosing wildcard pattern: the lookup result of a
+		// transaction merges them with the flows of the deeper node
+		"flows/w1.yaml":       inertFlow("w1", "a.com/*"),
+		"flows/w2.yaml":       inertFlow("w2", "a.com/*"),
+		"flows/w3.yaml":       inertFlow("w3", "a.com/*"),
 		"flows/fl.yaml":       limiterFlow("fl", "a.com/l", "cq").YAML(),
 		"flows/fc.yaml":       limiterFlow("fc", "b.io/c", "cc").YAML(),
 		"quotas/q.yaml":       strings.ReplaceAll(strings.ReplaceAll(c08Quota, "a.com/p1", "a.com/l"), "max: 100000", "max: 3\n        group_by_header: x-grp"),
@@ -208,7 +213,7 @@ func runC18S(s *kernel.Sim) {
 	tp := s.Tape
 	n := tp.Range(2, 3)
 	siteOn, density := lockSites(tp)
-	paths := [][2]string{{"a.com", "/p1"}, {"a.com", "/l"}, {"b.io", "/c"}, {"a.com", "/zz"}}
+	paths := [][2]string{{"a.com", "/p1"}, {"a.com", "/l"}, {"b.io", "/c"}, {"a.com", "/zz"}, {"a.com", "/p2"}}
 	type txn struct {
 		u   int
 		grp string
@@ -216,7 +221,7 @@ func runC18S(s *kernel.Sim) {
 	}
 	txns := make([]*txn, n)
 	for i := range txns {
-		txns[i] = &txn{u: tp.Weighted([]int{1, 4, 4, 1}), grp: []string{"", "a"}[tp.Choose(2)]}
+		txns[i] = &txn{u: tp.Weighted([]int{3, 4, 4, 1, 3}), grp: []string{"", "a"}[tp.Choose(2)]}
 	}
 	prefix := tp.Range(0, 3) // sequential requests on the fixed-window quota before the burst
 	s.Knobs["n"], s.Knobs["lock_sites"], s.Knobs["prefix"] = n, density, prefix
@@ -329,4 +334,14 @@ func permutations(n int) [][]int {
 		}
 	}
 	return out
+}
+
+// inertFlow is observable but emits no action: a Filter routing both outcomes to the stream end.
+func inertFlow(name, url string) string {
+	return flowDef{
+		Name: name, URL: url,
+		Procs: []procDef{{Key: "i", Type: "Filter", Params: [][2]string{{"header", "x-never=1"}}}},
+		Req:   []connDef{{FromStream: "start", ToProc: "i"}, {FromProc: "i", Cond: "hit", ToStream: "end"}, {FromProc: "i", Cond: "miss", ToStream: "end"}},
+		Resp:  []connDef{{FromStream: "start", ToStream: "end"}},
+	}.YAML()
 }
